@@ -17,6 +17,7 @@ def find_state_change_intervals(
     equals: Callable,
     step=60,
 ) -> Generator:
+    succ_level = head
     succ_value = get(head)
     logger.debug('%s at head %s', succ_value, head)
 
@@ -25,9 +26,19 @@ def find_state_change_intervals(
         logger.debug('%s at level %s', value, level)
 
         if not equals(value, succ_value):
-            logger.debug('%s -> %s at (%s, %s)', value, succ_value, level, level + step)
-            yield level + step, succ_value, level, value
+            logger.debug('%s -> %s at (%s, %s)', value, succ_value, level, succ_level)
+            yield succ_level, succ_value, level, value
             succ_value = value
+        succ_level = level
+
+    if succ_level > last:
+        # range() stops short of `last`: also examine the remaining (possibly partial) interval
+        value = get(last)
+        logger.debug('%s at level %s', value, last)
+
+        if not equals(value, succ_value):
+            logger.debug('%s -> %s at (%s, %s)', value, succ_value, last, succ_level)
+            yield succ_level, succ_value, last, value
 
 
 def find_state_change(
